@@ -97,18 +97,23 @@ Never ==
                 Stmt("n_clone_key", ""), Stmt("n_copy_key", ""),                          \* duplicate the key
                 Stmt("n_lock_borrowed_key", "m1"), Stmt("n_lock_borrowed_key", "ct"),     \* guard API with a borrowed key
                 Stmt("n_lock_shared_ref_key", "m1"),
-                Stmt("n_scoped_shared_ref_key", "m1"), Stmt("n_scoped_shared_ref_key", "ct")}   \* scoped call with &key
+                Stmt("n_scoped_shared_ref_key", "m1"), Stmt("n_scoped_shared_ref_key", "ct"),   \* scoped call with &key
+                Stmt("n_lock_borrowed_key", "rw_r"), Stmt("n_lock_borrowed_key", "rw_w")}
         ELSE {})
   \cup (IF g = "live" THEN
           {Stmt("n_guard_field", gx),                                                     \* private key field of the guard
+           Stmt("n_hold_field", gx), Stmt("n_destructure_guard", gx),                     \* private hold field / destructuring
            Stmt("n_scope_spawn_guard", gx),                                               \* send a key-holding guard
            Stmt("n_ref_outlives_guard", gx)}                                              \* reference outliving the hold (C15)
+          \cup (IF gx = "rw_r" THEN {Stmt("n_write_through_read_guard", gx)} ELSE {})      \* C15: a shared hold gives no &mut
           \cup (IF TupleShaped(gx) THEN {Stmt("n_move_hold_out", gx), Stmt("n_take_holds", gx)} ELSE {})
           \cup (IF VecShaped(gx) THEN {Stmt("n_take_holds", gx)} ELSE {})                 \* D6: currently accepted
         ELSE {})
   \* --- statements that need no particular state: tried once, in the initial state
   \cup (IF prog = <<>> THEN
           {Stmt("n_forge_key", ""), Stmt("n_impl_keyable", ""), Stmt("n_impl_sealed", ""),
+           Stmt("n_key_default", ""), Stmt("n_key_from_thread", ""), Stmt("n_guard_from_thread", ""),
+           Stmt("n_key_in_static", ""), Stmt("n_write_in_scoped_read", "rw_r"), Stmt("n_write_in_scoped_read", "ow"),
            Stmt("n_guard_outlives_lock", "m1"), Stmt("n_guard_outlives_lock", "ct"),
            Stmt("n_new_with_refs", "boxed"), Stmt("n_new_with_refs", "retry"), Stmt("n_new_with_refs", "owned"),
            Stmt("n_new_ref_with_refs", "boxed"), Stmt("n_ref_new_with_refs", "ref"),
